@@ -108,24 +108,24 @@ func keyMap[K comparable](d *Dom[K], vtab []string, p, k int) func(K, string) (K
 
 type idxEnumA[T comparable] struct {
 	containers.EnumerableWithIndex[T]
-	Select func(f func(int, T) bool) (containers.Container[T], func(...T))
-	Map    func(f func(int, T) T) (containers.Container[T], func(...T))
+	Select func(f func(int, T) bool) any // the concrete result container
+	Map    func(f func(int, T) T) any
 }
 
 func listEnum[T comparable](l lists.List[T]) *idxEnumA[T] {
 	switch l := l.(type) {
 	case *arraylist.List[T]:
 		return &idxEnumA[T]{l,
-			func(f func(int, T) bool) (containers.Container[T], func(...T)) { r := l.Select(f); return r, r.Add },
-			func(f func(int, T) T) (containers.Container[T], func(...T)) { r := l.Map(f); return r, r.Add }}
+			func(f func(int, T) bool) any { return l.Select(f) },
+			func(f func(int, T) T) any { return l.Map(f) }}
 	case *singlylinkedlist.List[T]:
 		return &idxEnumA[T]{l,
-			func(f func(int, T) bool) (containers.Container[T], func(...T)) { r := l.Select(f); return r, r.Add },
-			func(f func(int, T) T) (containers.Container[T], func(...T)) { r := l.Map(f); return r, r.Add }}
+			func(f func(int, T) bool) any { return l.Select(f) },
+			func(f func(int, T) T) any { return l.Map(f) }}
 	case *doublylinkedlist.List[T]:
 		return &idxEnumA[T]{l,
-			func(f func(int, T) bool) (containers.Container[T], func(...T)) { r := l.Select(f); return r, r.Add },
-			func(f func(int, T) T) (containers.Container[T], func(...T)) { r := l.Map(f); return r, r.Add }}
+			func(f func(int, T) bool) any { return l.Select(f) },
+			func(f func(int, T) T) any { return l.Map(f) }}
 	}
 	panic("listEnum")
 }
@@ -194,13 +194,13 @@ func readIdx[T comparable](op Op, d *Dom[T], newIt func() containers.IteratorWit
 		if en == nil {
 			return "n/a"
 		}
-		r, _ := en.Select(idxPred(d, a[2], a[1]))
+		r := en.Select(idxPred(d, a[2], a[1])).(containers.Container[T])
 		return joinS(r.Values(), d.Str)
 	case "Map":
 		if en == nil {
 			return "n/a"
 		}
-		r, _ := en.Map(idxMap(d, a[2], a[1]))
+		r := en.Map(idxMap(d, a[2], a[1])).(containers.Container[T])
 		return joinS(r.Values(), d.Str)
 	default:
 		panic("readIdx: unknown read op " + op.N)
